@@ -426,8 +426,10 @@ def sample_of(case):
 
 def describe():
   return {
-    "rule": ("one simulated run = producer/corpus file (5 formats) -> seeded fault sequence (0 faults in 25 % of sampled runs, else 1-6 of: "
-             "eof, flip, overwrite, zero, drop, dup, swap, splice, torn, badutf8, boundary) -> real reader through a tt.py-like stream -> "
+    "rule": ("one simulated run = producer/corpus file (5 formats; TTML has a double share, 40 % of produced TTML documents come from a "
+             "'careful authoring tool' with only well-formed values, half of the produced SCC files follow the caption protocols) -> seeded fault "
+             "sequence (0 faults in 25 % of sampled runs, else 1-6 of: "
+             "eof, flip, overwrite, zero, drop, dup, swap, splice, torn, badutf8, boundary, valuetok) -> real reader through a tt.py-like stream -> "
              "significant_times, ISD.from_model (uncached+cached) at <= 16 times, SRT/VTT/IMSC writers and LCD filter under seeded valid "
              "configurations. 8 of every 400 run indices are sweep runs that together enumerate the complete single-fault space of one small "
              "seeded file (every truncation offset, 4 corruptions per byte, every record drop/dup/adjacent swap); each swept fault is one "
